@@ -17,6 +17,7 @@ CONSTANTS
   MaxReaderOpens = 0
   AllowClose = FALSE
 VIEW View
+CONSTRAINT Bound
 INVARIANTS TypeOK C01_RootIsAbstract C01_SegIdsUnique C01_UpdateUnique C02_AckedDurable C03_DiskIsPrefix C03_Recoverable
   C03_EveryLoadableIsPrefix C04_NoUseAfterClose C11_Retained C11_AtLeastN C11_RootFiles C11_OpenHandlesHaveFiles C11_HandlesBalanced C11_Lock
 PROPERTIES C06_Invisible C11_RemoveSafe
